@@ -765,6 +765,12 @@ def gen_family(rng, force=(), forbid=(), n_masters=None, max_glyphs=14, p_sparse
                 hi = dloc({"Weight": 700, "Width": a2d} if naxes == 2 else {"Weight": 700})["Weight"]
                 rules.append({"name": "bold_alt", "conditionSets": [[{"name": "Weight", "minimum": lo, "maximum": hi}]],
                               "subs": [[a[:-4], a] for a in alts]})
+                if rng.random() < 0.4:
+                    # a second, overlapping rule (rule and <sub> order matter)
+                    mid = (lo + hi) / 2
+                    rules.append({"name": "black_alt", "conditionSets": [[{"name": "Weight", "minimum": mid, "maximum": hi}]],
+                                  "subs": [[a, a[:-4]] for a in alts[:1]] if rng.random() < 0.5
+                                  else [[alts[0][:-4], alts[-1]]]})
         for i in range(rng.randint(0, 2)):
             wu = rng.choice([400, 475, 550, 625, 700])
             inst = {"Weight": wu}
@@ -846,6 +852,17 @@ def _deep(v):
     return v
 
 
+def _perturb_groups(rng, groups):
+    """Mostly identical groups in every master; sometimes a non-default master
+    disagrees (the instantiator then uses the default source's groups)."""
+    g = _deep(groups)
+    if g and rng.random() < 0.15:
+        name = sorted(g)[0]
+        if g[name]:
+            g[name] = g[name][:-1] if rng.random() < 0.5 else g[name] + ["ghost2"]
+    return g
+
+
 def _perturb_master(rng, m0, k, on, spec):
     glyphs = {n: _perturb_glyph(rng, g, k, spec) for n, g in m0["glyphs"].items()}
     # occasionally make a component's 2x2 differ between masters (forces joint decomposition)
@@ -885,5 +902,5 @@ def _perturb_master(rng, m0, k, on, spec):
             layers[ln] = {n: _perturb_glyph(rng, g, k, spec) for n, g in lay.items()}
     return {"name": "master_%d" % k, "info": info, "glyphs": glyphs,
             "glyph_order": list(m0["glyph_order"]) + [n for n in glyphs if n not in m0["glyphs"]],
-            "kerning": kerning, "groups": _deep(m0["groups"]), "features": features, "lib": lib,
+            "kerning": kerning, "groups": _perturb_groups(rng, m0["groups"]), "features": features, "lib": lib,
             "layers": layers, "data": _deep(m0["data"])}
